@@ -1,7 +1,8 @@
 SPECIFICATION TSpec
 CONSTANTS
-  MaxTables = 1
-  MaxCycles = 1
+  MaxTables = 1000000
+  MaxCycles = 1000000000
   K = 1
+  ReleaseBeforeJoin = FALSE
 INVARIANTS Report
 CHECK_DEADLOCK FALSE
